@@ -504,7 +504,7 @@ func userVisibleSameMap(c *core.Ctx) {
 				embeds = true
 			}
 		}
-		if embeds {
+		if embeds || embedsInterface(named) != nil {
 			continue
 		}
 		isClient := types.Implements(types.NewPointer(named), clientConn.Underlying().(*types.Interface))
